@@ -7,12 +7,12 @@ def S(xs):
     return '{' + ', '.join('"%s"' % x for x in xs) + '}'
 
 
-def core(name, acts, maxn, adds, stack=0, und=0, rst=0, perm=3, invariants=True, probe=0, minn=0, initlive=99, undone=False, **kw):
+def core(name, acts, maxn, adds, stack=0, und=0, rst=0, perm=3, invariants=True, probe=0, minn=0, initlive=99, undone=False, reuse=0, **kw):
     st = {
         'kind': 'gen_replay', 'name': name, 'module': 'Core', 'fam': 'core', 'spec': 'Spec', 'view': 'View',
         'constants': {'MaxN': maxn, 'MaxAdds': adds, 'MaxStack': stack, 'MaxUnd': und, 'MaxRst': rst,
-                      'Acts': S(acts), 'MaxPerm': perm, 'MaxProbe': probe, 'MinN': minn, 'InitLive': initlive, 'TrackUndone': 'TRUE' if undone else 'FALSE'},
-        'invariants': ['TypeOK', 'RootCountOK', 'NodesOK'] if invariants else ['TypeOK'],
+                      'Acts': S(acts), 'MaxPerm': perm, 'MaxProbe': probe, 'MinN': minn, 'InitLive': initlive, 'TrackUndone': 'TRUE' if undone else 'FALSE', 'MaxReuse': reuse},
+        'invariants': ['TypeOK', 'RootCountOK', 'NodesOK', 'LabOK'] if invariants else ['TypeOK', 'LabOK'],
     }
     st.update(kw)
     return st
@@ -722,3 +722,46 @@ for _p in ('C01', 'C02', 'C10', 'C13', 'C14'):
     PLAN[_p]['rule'] += BIG_RULE
     for _t in ('quick', 'thorough'):
         PLAN[_p]['bounds'][_t] += '; large forests: %s' % ('2 histories up to 9000 leaves' if _t == 'quick' else '6 histories up to 12000 leaves')
+
+
+# --------------------------------------------------------------------------- hash reuse
+# A block may delete a leaf and append a leaf carrying the same hash (the leaf is then live again, in a new slot).  The
+# harness derives that variant from every pure block history (option reuse=1): one block with deletions and additions is
+# picked by the hash of the line, its first addition carries the hash of its first deleted leaf, and every expectation of
+# the reference semantics is rewritten accordingly (a substitution of leaf terms).
+def _with_reuse(f, names):
+    def g(tier, seed):
+        out = []
+        for st in f(tier, seed):
+            if st.get('name') in names and st.get('fam') == 'core':
+                st = dict(st)
+                st['x'] = (st['x'] + ',' if st.get('x') else '') + 'reuse=1'
+            out.append(st)
+        return out
+    return g
+
+
+for _p in ('C01', 'C10'):
+    PLAN[_p]['stages'] = _with_reuse(PLAN[_p]['stages'], ('core_bfs',))
+    PLAN[_p]['rule'] += (' Every pure block history is replayed a second time in its hash-reuse variant: one block appends a leaf that '
+                         'carries the hash of a leaf the same block deletes, and the expectations are the reference values under that substitution.')
+def relabel(tier, acts, **kw):
+    q = tier == 'quick'
+    return core('core_relabel', acts, 5 if q else 6, 2, reuse=1, timeout=900 if q else 7200, **kw)
+
+
+RELABEL_RULE = (' Stage core_relabel: spec/Core.tla with MaxReuse=1 - leaf and hash are told apart: in one block per behaviour the first '
+                'appended leaf may carry the hash of any leaf that block deletes (marks.lab = <<to, from>>, part of the state, lifted '
+                'when that block is undone; invariant LabOK: live hashes stay pairwise distinct); every emitted hash term is read '
+                'under that substitution and all later blocks, undos and round trips are continued from the relabelled states.')
+_c05c = PLAN['C05']['stages']
+PLAN['C05']['stages'] = lambda tier, seed: _c05c(tier, seed) + [relabel(tier, ['mod'])]
+PLAN['C05']['rule'] += RELABEL_RULE
+PLAN['C05']['bounds'] = {k: v + '; relabelled behaviours n<=%d, adds 0..2' % (5 if k == 'quick' else 6) for k, v in PLAN['C05']['bounds'].items()}
+_c10c = PLAN['C10']['stages']
+PLAN['C10']['stages'] = lambda tier, seed: _c10c(tier, seed) + [relabel(tier, ['mod', 'undo', 'restore'], stack=1, und=1, rst=1)]
+PLAN['C10']['rule'] += RELABEL_RULE
+PLAN['C10']['bounds'] = {k: v + '; relabelled behaviours n<=%d, adds 0..2, one undo, one round trip' % (5 if k == 'quick' else 6) for k, v in PLAN['C10']['bounds'].items()}
+for _p in ('C01', 'C05', 'C10'):
+    PLAN[_p]['assumptions'] = list(PLAN[_p]['assumptions']) + [
+        'leaves are distinct among the live leaves; a hash may come back in the block that deletes it (hash-reuse variant), never while it is live']
